@@ -59,6 +59,12 @@ where
                         stored_to - from,
                     )
                 };
+                #[cfg(feature = "verif")]
+                rawdb::verif::access(
+                    rawdb::verif::AccessKind::Mmap,
+                    src.as_ptr() as usize,
+                    size_of_val(src),
+                );
                 buf.extend_from_slice(src);
             } else {
                 self.fold_source(from, stored_to, (), |(), v| buf.push(v));
